@@ -87,19 +87,45 @@ def _d1(chk, fb, fns):
             chk.refuted("D1", g.key, "override-uses-capped-loop", g.loc(), "optimize() is overridden without going through the capped loop of AbstractOptimizer::optimize()")
 
 
+def _policy_sites(fb, f, depth=2):
+    """sites of f that apply the constraint policy: (node, 'auto'|'ign'|'both', guard holds).  A direct autoParameter() /
+    ignoreConstraints() call is guarded when it is dominated by 'policy == CONSTRAINTS_AUTO' / '== CONSTRAINTS_IGNORE'; a call
+    of a helper of the same object that itself applies both halves under their guards counts as 'both'"""
+    out = []
+    cfg = f.cfg
+    for c in f.calls():
+        nm = c["callee"]["name"]
+        if nm == "autoParameter":
+            ok, _ = e1.guarded_by(cfg, cfg.stmt_block(c), lambda facts: any("CONSTRAINTS_AUTO" in t and "==" in t and tr for t, tr, _ in facts))
+            out.append((c, "auto", ok))
+        elif nm == "ignoreConstraints":
+            ok, _ = e1.guarded_by(cfg, cfg.stmt_block(c), lambda facts: any("CONSTRAINTS_IGNORE" in t and "==" in t and tr for t, tr, _ in facts))
+            out.append((c, "ign", ok))
+        elif depth > 0 and nm not in ("doInit", "doStep", "init", "step", "optimize") and ("obj" not in c or render(f.obj(c)) == "this"):
+            for t in fb.targets(c, static_type_only=True):
+                if t.key == f.key or t.body is None or not fb.derives_from(t.cls or "", AO):
+                    continue
+                inner = _policy_sites(fb, t, depth - 1)
+                a = [x for x in inner if x[1] in ("auto", "both")]
+                i = [x for x in inner if x[1] in ("ign", "both")]
+                if a and i:
+                    out.append((c, "both", all(x[2] for x in a + i)))
+    return out
+
+
 def _d2(chk, fb, fns):
     init = fb.q1(AO + "::init")
     cfg = init.cfg
     doinit = [c for c in init.calls() if c["callee"]["name"] == "doInit"]
-    auto = [c for c in init.calls() if c["callee"]["name"] == "autoParameter"]
-    ign = [c for c in init.calls() if c["callee"]["name"] == "ignoreConstraints"]
+    sites = _policy_sites(fb, init)
+    auto = [c for c, k, g in sites if k in ("auto", "both")]
+    ign = [c for c, k, g in sites if k in ("ign", "both")]
     setp = [n for n in init.calls() if n["callee"]["name"] == "operator=" and "obj" in n and render(init.obj(n)) == "parameters_"]
     if doinit and auto and ign and setp:
-        ok_order = all(e1.before_in_function(cfg, a, doinit[0]) and not e1.before_in_function(cfg, doinit[0], a) for a in auto + ign) and all(e1.before_in_function(cfg, s_, a) for s_ in setp for a in auto + ign)
-        okA, _ = e1.guarded_by(cfg, cfg.stmt_block(auto[0]), lambda facts: any("CONSTRAINTS_AUTO" in t and "==" in t and tr for t, tr, _ in facts))
-        okI, _ = e1.guarded_by(cfg, cfg.stmt_block(ign[0]), lambda facts: any("CONSTRAINTS_IGNORE" in t and "==" in t and tr for t, tr, _ in facts))
-        # under AUTO the call must happen: the AUTO-true edge leads to it unconditionally
-        if ok_order and okA and okI:
+        both = auto + [x for x in ign if x not in auto]
+        ok_order = all(e1.before_in_function(cfg, a, doinit[0]) and not e1.before_in_function(cfg, doinit[0], a) for a in both) and all(e1.before_in_function(cfg, s_, a) for s_ in setp for a in both)
+        okG = all(g for c, k, g in sites)
+        if ok_order and okG:
             chk.proved("D2", init.key, "policy-before-doInit", init.loc(auto[0]), "parameters_ = params; policy applied; then doInit")
         else:
             chk.refuted("D2", init.key, "policy-before-doInit", init.loc(), "init does not install the constraint policy on its own list before doInit evaluates the objective")
@@ -107,19 +133,31 @@ def _d2(chk, fb, fns):
         chk.refuted("D2", init.key, "policy-before-doInit", init.loc(), "init no longer copies the parameters and applies autoParameter()/ignoreConstraints() before doInit")
     for q, call in ((AO + "::autoParameter", "setParameter"), (AO + "::ignoreConstraints", "removeConstraint")):
         f = fb.q1(q)
+        from .c02 import _loop_range
         cs = [c for c in f.calls() if c["callee"]["name"] == call]
-        lp = f.enclosing(cs[0], ("ForStmt",)) if cs else None
-        whole = lp is not None and render(f.nodes[lp["cond"]]) == "(i < parameters_.size())" and render(f.nodes[lp["init"]]["decls"][0]["init"]) == "0"
-        if q.endswith("autoParameter") and cs:
+        lp = f.enclosing(cs[0], ("ForStmt", "CXXForRangeStmt", "WhileStmt")) if cs else None
+        rng = _loop_range(f, lp, None) if lp is not None else None
+        whole = rng is not None and rng[0] == "whole" and rng[1] == "parameters_"
+        if not cs:
+            chk.refuted("D2", f.key, "policy-covers-all", f.loc(), "%s no longer calls %s on the elements of parameters_" % (q.split("::")[-1], call))
+            continue
+        if q.endswith("autoParameter") and whole:
             # the replacement must be an AutoParameter built from the same element
-            aps = [d for n in walk(f.body) if n["k"] == "DeclStmt" for d in n["decls"] if "AutoParameter" in d["ty"]]
-            whole = whole and bool(aps) and "AutoParameter(parameters_[i]" in render(aps[0]["init"])
+            aps = [d for n in walk(f.body) if n["k"] == "DeclStmt" for d in n["decls"] if "AutoParameter" in d["ty"] and d.get("init")]
+            elem = rng[2]
+            def is_elem(t):
+                return re.search(elem, t) is not None if elem.startswith("\\b") else elem in t
+            if aps and not is_elem(render(aps[0]["init"])):
+                chk.refuted("D2", f.key, "policy-covers-all", f.loc(cs[0]), "the AutoParameter installed for an element is built from '%s', not from that element" % render(aps[0]["init"])[:60])
+                continue
         if whole:
-            chk.proved("D2", f.key, "policy-covers-all", f.loc(cs[0]), "loop over 0..parameters_.size()")
+            chk.proved("D2", f.key, "policy-covers-all", f.loc(cs[0]), "loop over every element of parameters_")
+        elif lp is not None and lp["k"] == "ForStmt" and rng[0] == "other" and re.search(r"parameters_\.size\(\)", rng[1]) and re.search(r"= [1-9]|size\(\) - \d|\+ \d+\) <", rng[1]):
+            chk.refuted("D2", f.key, "policy-covers-all", f.loc(lp), "%s loops over '%s': not every element of parameters_" % (q.split("::")[-1], rng[1][:80]))
         else:
-            chk.refuted("D2", f.key, "policy-covers-all", f.loc(), "%s does not treat every element of parameters_" % q.split("::")[-1])
+            chk.unknown("D2", f.key, "policy-covers-all", f.loc(cs[0]), "%s: the traversal of parameters_ is not one of the recognised whole-container loops" % q.split("::")[-1])
     for f in [x for x in fb.q(AO + "::AbstractOptimizer") if x.rec.get("copyctor")] + [fb.q1(AO + "::operator=")]:
-        re_auto = [c for c in f.calls() if c["callee"]["name"] == "autoParameter"]
+        re_auto = [c for c, k, g in _policy_sites(fb, f) if k in ("auto", "both") and g]
         if re_auto and e1.guarded_by(f.cfg, f.cfg.stmt_block(re_auto[0]), lambda facts: any(t == "isInitialized_" and tr for t, tr, _ in facts))[0]:
             chk.proved("D2", f.key, "copy-reapplies-policy", f.loc(re_auto[0]), "policy re-applied when initialised")
         else:
